@@ -400,3 +400,89 @@ func InducedPaths(g *rg.G, b *Budget) (byLen []int, ok bool) {
 	byLen[0] = n
 	return byLen, ok
 }
+
+// BlocksFast is Blocks for large graphs.  Two edges that share a vertex v lie
+// on a common cycle iff their other ends are connected in g - v; a block is a
+// class of the transitive closure of that relation (inside a block any two
+// edges are linked by a chain of edges sharing a vertex).  n component
+// searches instead of a test of every pair of edges.
+func BlocksFast(g *rg.G) (blocks [][]int, isolated []int) {
+	n := g.N
+	es := g.Edges()
+	idx := make(map[[2]int]int, len(es))
+	for i, e := range es {
+		idx[e] = i
+	}
+	edgeOf := func(a, b int) int {
+		if a > b {
+			a, b = b, a
+		}
+		return idx[[2]int{a, b}]
+	}
+	par := make([]int, len(es))
+	for i := range par {
+		par[i] = i
+	}
+	find := func(x int) int {
+		for par[x] != x {
+			par[x] = par[par[x]]
+			x = par[x]
+		}
+		return x
+	}
+	for v := 0; v < n; v++ {
+		label, _ := Components(g, v)
+		first := map[int]int{} // component of g - v -> an edge from v into it
+		for _, a := range g.Nbrs(v) {
+			e := edgeOf(v, a)
+			if f, ok := first[label[a]]; ok {
+				par[find(e)] = find(f)
+			} else {
+				first[label[a]] = e
+			}
+		}
+	}
+	members := map[int][]int{}
+	for e := range es {
+		r := find(e)
+		members[r] = append(members[r], es[e][0], es[e][1])
+	}
+	for _, vs := range members {
+		sort.Ints(vs)
+		b := vs[:0:0]
+		for i, x := range vs {
+			if i == 0 || x != vs[i-1] {
+				b = append(b, x)
+			}
+		}
+		blocks = append(blocks, b)
+	}
+	SortSets(blocks)
+	isolated = []int{}
+	for v := 0; v < n; v++ {
+		if g.Deg(v) == 0 {
+			isolated = append(isolated, v)
+		}
+	}
+	return blocks, isolated
+}
+
+// CountsByBlocks adds up a cycle counter over the blocks of g: every cycle
+// lies inside one block, and a block is an induced subgraph, so this holds for
+// all cycles and for induced cycles alike.  The result has length g.N+1.
+func CountsByBlocks(g *rg.G, blocks [][]int, counter func(*rg.G, *Budget) ([]int, bool), b *Budget) ([]int, bool) {
+	r := make([]int, g.N+1)
+	for _, bl := range blocks {
+		if len(bl) < 3 {
+			continue
+		}
+		c, ok := counter(g.Induced(bl), b)
+		if !ok {
+			return nil, false
+		}
+		for l, x := range c {
+			r[l] += x
+		}
+	}
+	return r, true
+}
